@@ -322,10 +322,10 @@ PROPS = {
     "C14": {
         "level": "proof",
         "claim": "Exact inverses with exact sizes for varints (all v < 2^62, all four reader/writer impls, shortest form, untouched-on-error), stream headers (complete), frame headers (complete) with payloads up to the stated bound, datagrams, and QPACK prefix integers (all usize values, all widths); the QPACK static table is RFC 9204 Appendix A.",
-        "note": "Frame/datagram payload length is bounded on Kani (8/70, 16/256); frame encoders for ANY payload length are Verus unit frame_write. Field sections and settings maps as wholes go through HashMap/iterators and are NOT claimed (Huffman codec, HashMap, Vec trusted).",
+        "note": "Frame/datagram payload length is bounded on Kani (8/70, 16/256); frame encoders for ANY payload length are Verus unit frame_write. Field sections as wholes: Decoder::decode == reference interpreter (unit qpack_decode), Encoder::encode == one RFC 9204 line per field (unit qpack_encode), and decode(encode(h)) == h's fields (lemma unit qpack_roundtrip) - modulo the listed axioms on the primitives (string literal/Huffman codec and HashMap are ASSUMED); Headers::generate_frame's HashMap iteration order and Settings::generate_frame are not under contract.",
         "kani": VARINT_KANI + FRAME_WRITE_KANI + [FRAME_READ_20, STREAM_HEADER_KANI[1], DATAGRAM_KANI[0], DATAGRAM_KANI[1], DATAGRAM_KANI[2], DATAGRAM_KANI[3]]
                 + QPACK_INT_ENC + [QPACK_MISC[1], QPACK_LOOKUP, VEC_PUT_BYTES],
-        "verus": [V("ids", pair=("proto", "c_varint_size")), V("qpack_encode"), V("frame_write", pair=("proto", "p_frame_write_roundtrip_8"))],
+        "verus": [V("ids", pair=("proto", "c_varint_size")), V("qpack_encode"), V("frame_write", pair=("proto", "p_frame_write_roundtrip_8")), V("qpack_decode", pair=("proto", "p_qpack_decode_integer_n7")), V("qpack_roundtrip")],
         "not_decided": ["Headers::generate_frame <-> with_frame and Settings::generate_frame <-> with_frame as wholes"],
     },
     "C15": {
